@@ -66,6 +66,8 @@ func (l *vAbsLoader) load(u string) (json.RawMessage, error) {
 func vC05Elem(kind int, label string) vJ {
 	o := vJObj()
 	switch kind {
+	case 5:
+		vJAdd(o, true, "$ref", vJStr("#/definitions/Other"))
 	case 0, 4: // schema, with a nested $ref that must stay as it is
 		vJAdd(o, true, "description", vJStr(label))
 		p := vJObj()
@@ -99,6 +101,9 @@ func vC05Elem(kind int, label string) vJ {
 var vC05Sections = []string{"definitions", "parameters", "responses", "paths", "x-Shared-Models"}
 
 func vC05Doc(kind int, name string, elem vJ, isRoot bool) vJ {
+	if kind == 5 {
+		kind = 0 // an alias is a definition
+	}
 	doc := vJObj()
 	if isRoot {
 		vJAdd(doc, true, "swagger", vJStr("2.0"))
@@ -132,7 +137,7 @@ func vC05Doc(kind int, name string, elem vJ, isRoot bool) vJ {
 
 func vh_C05_resolve() {
 	name := vC05Name("name", 1+vChoose(vParam("name_len", 2), "namelen"))
-	kind := vChoose(5, "kind")   // 4: a schema kept under a mixed-case vendor extension of the root
+	kind := vChoose(6, "kind")   // 4: a schema kept under a mixed-case vendor extension of the root; 5: a definition that is itself a $ref (an alias is returned, not followed)
 	where := vChoose(3, "where") // 0 root, 1 a sibling document, 2 a document whose location carries a query (others differ by query only)
 	inSub := where >= 1
 	exists := vChoose(2, "exists") == 1
@@ -159,7 +164,11 @@ func vh_C05_resolve() {
 	if kind == 3 {
 		refName = "/" + refName
 	}
-	refStr := "#/" + vC05Sections[kind] + "/" + vPct(vEsc6901(refName))
+	sec := kind
+	if kind == 5 {
+		sec = 0
+	}
+	refStr := "#/" + vC05Sections[sec] + "/" + vPct(vEsc6901(refName))
 	if where == 1 {
 		refStr = "sub/a.json" + refStr
 	} else if where == 2 {
@@ -193,7 +202,7 @@ func vh_C05_resolve() {
 	var got interface{}
 	var err error
 	switch kind {
-	case 0, 4:
+	case 0, 4, 5:
 		got, err = ResolveRefWithBase(root, &ref, opts)
 	case 1:
 		got, err = ResolveParameterWithBase(root, ref, opts)
@@ -222,6 +231,27 @@ func vh_C05_resolve() {
 	if merr == nil {
 		vAssertJSONEq(vJBytes(want), gb, "resolved element versus designated sub-document")
 	}
+	// below a path item: the default response is reachable, an undeclared status code designates nothing
+	// (whatever the representation of the root)
+	if kind == 3 {
+		rd, e1 := NewRef(refStr + "/get/responses/default")
+		rn, e2 := NewRef(refStr + "/get/responses/404")
+		if e1 == nil && e2 == nil {
+			_, errD := ResolveResponseWithBase(root, rd, opts)
+			vAssert(errD == nil, "the default response of an operation of an existing path item fails to resolve")
+			_, errN := ResolveResponseWithBase(root, rn, opts)
+			vAssert(errN != nil, "a status code the operation does not declare resolves without error")
+		}
+	}
+	// the entry point without options gives the same answer as the one with options (in-memory roots)
+	if (kind == 0 || kind == 5) && where == 0 && form != 2 {
+		g0, err0 := ResolveRef(root, &ref)
+		vAssert(err0 == nil, "ResolveRef fails where ResolveRefWithBase succeeds")
+		if err0 == nil {
+			gb0, _ := json.Marshal(g0)
+			vAssertJSONEq(vJBytes(want), gb0, "ResolveRef versus designated sub-document")
+		}
+	}
 	// the same reference once more after the other document was replaced at its location: the element
 	// designated now is the new one (every call reads the documents it is given)
 	if where == 1 && kind != 4 {
@@ -230,7 +260,7 @@ func vh_C05_resolve() {
 		var got2 interface{}
 		var err2 error
 		switch kind {
-		case 0:
+		case 0, 5:
 			got2, err2 = ResolveRefWithBase(root, &ref, opts)
 		case 1:
 			got2, err2 = ResolveParameterWithBase(root, ref, opts)
